@@ -16,6 +16,11 @@ from ..looprule import find_scanner_loops
 from ..srcmodel import call_name, unparse, walk_no_nested
 
 
+def sp_groups(pattern: str) -> int:
+    import re._parser as _sp
+    return _sp.parse(pattern).state.groups - 1
+
+
 def run(ctx, report: Report) -> None:
     src, inv = ctx.src, ctx.consts
     report.explanation = (
@@ -74,23 +79,53 @@ def run(ctx, report: Report) -> None:
     pmod, pfn = src.func('pretty.pretty')
     dn = inv.folder.env_nodes['pretty'].get('TOKENS')
     keys = [k.value for k in dn.keys if isinstance(k, ast.Constant)]
-    handled = {}
-    for n in ast.walk(pfn):
-        if isinstance(n, ast.If) and isinstance(n.test, ast.Compare) and isinstance(n.test.ops[0], (ast.In, ast.Eq)):
-            v = inv.folder.try_ev('pretty', n.test.comparators[0], default=None)
-            names = [v] if isinstance(v, str) else list(v or [])
-            emits = any(isinstance(c, ast.Call) and call_name(c).endswith('.append') and 'm.group' in unparse(c)
-                        for st in n.body for c in ast.walk(st))
-            for nm in names:
-                handled[nm] = emits
+    # decision table by partial evaluation: pretty() on a one-token input, the regexes replaced by an abstract matcher
+    # that recognises exactly the token kind under test
+    from ..interp import Obj, Raised, call_function
+    from ..miniev import Unsupported
+    from ..tables import match_obj
+    if not isinstance(dn, ast.Dict):
+        raise AnalysisError('pretty.TOKENS is not a dict literal')
+    pat_of = {}
+    for k_, v_ in zip(dn.keys, dn.values):
+        r_ = inv.by_name(f'pretty.{unparse(v_)}')
+        if r_ is None or not isinstance(k_, ast.Constant):
+            raise AnalysisError(f'pretty.TOKENS[{unparse(k_)}] is not an inventoried regex')
+        pat_of[k_.value] = r_.pattern
+
+    def pretty_on(kind):
+        calls = [0]
+
+        def matcher(rx_obj, text, pos=0, *a_):
+            calls[0] += 1
+            if calls[0] > 200:
+                raise Raised('<no progress>')
+            if kind is not None and rx_obj.get('pattern') == pat_of[kind] and pos == 0:
+                return match_obj({0: '<TOKEN>', 1: '<GROUP1>'}, name=kind, start=0, end=1)
+            return None
+        try:
+            return call_function(ctx, 'pretty.pretty', [Obj(_name='obj')], {}, {'str': lambda o: 'X', 're.Pattern.match': matcher})
+        except Raised as e:
+            return f'raises {e.exc_name}'
+        except Unsupported as e:
+            raise AnalysisError(f'pretty(): outside the evaluable fragment: {e}')
     for k in keys:
-        ok = handled.get(k, False)
-        r2.instance({'token': k, 'emitted': ok}, key=k)
+        out = pretty_on(k)
+        want = '<GROUP1>' if sp_groups(pat_of[k]) else '<TOKEN>'
+        ok = isinstance(out, str) and want in out and 'X' not in out
+        r2.instance({'token': k, 'output_for_one_token': out, 'must_contain': want}, key=k)
         r2.obligation(ok)
         if not ok:
             r2.violation(f'pretty.pretty token {k}', pmod.where(pfn),
-                         f'pretty(): token kind {k!r} of TOKENS has no branch that appends the matched text: that part of '
-                         f'the repr is dropped from the output')
+                         f'pretty(): on an input that consists of one {k!r} token the output is {out!r}; the matched text '
+                         f'({want}) must be emitted, once: that part of the repr is dropped or duplicated otherwise')
+    out = pretty_on(None)
+    ok = out == 'X'
+    r2.instance({'token': None, 'output_for_unmatched_character': out}, key='no-token')
+    r2.obligation(ok)
+    if not ok:
+        r2.violation('pretty.pretty unmatched character', pmod.where(pfn),
+                     f'pretty(): a character that no token pattern matches yields {out!r} instead of being copied to the output')
 
     # ---- R3 ----------------------------------------------------------------------------------------------
     r3 = report.rule('C20-R3', 'syntax errors carry the pattern and the position named in the message', floor=10)
@@ -146,19 +181,36 @@ def run(ctx, report: Report) -> None:
                     stmts = list(n.body) + list(n.orelse)
                     todo = list(stmts)
                     bad = []
+                    READ_CALLS = ('group', 'start', 'end', 'format', 'join', 'repr', 'str', 'len')
+
+                    def pure(e):
+                        return not any(isinstance(x, (ast.NamedExpr, ast.Yield, ast.YieldFrom, ast.Await)) or (
+                            isinstance(x, ast.Call) and call_name(x).split('.')[-1] not in READ_CALLS) for x in ast.walk(e))
+                    # names bound inside the block must stay inside it
+                    inside = {id(x) for st in stmts for x in ast.walk(st)}
+                    bound = {x.id for st in stmts for x in ast.walk(st) if isinstance(x, ast.Name) and isinstance(x.ctx, ast.Store)}
+                    leaks = {x.id for x in ast.walk(fn) if isinstance(x, ast.Name) and x.id in bound and id(x) not in inside}
                     while todo:
                         st = todo.pop()
                         if isinstance(st, ast.If):
                             # nested conditions may only read
-                            if any(isinstance(x, (ast.Call, ast.NamedExpr)) for x in ast.walk(st.test)):
+                            if not pure(st.test):
                                 bad.append(st)
                             todo.extend(st.body + st.orelse)
+                        elif isinstance(st, ast.For):
+                            # iteration over a display of values, binding block-local names
+                            tn = [x for x in ast.walk(st.target) if isinstance(x, ast.expr)]
+                            if not pure(st.iter) or not all(isinstance(x, (ast.Name, ast.Tuple, ast.List)) for x in tn) \
+                                    or any(isinstance(x, ast.Name) and x.id in leaks for x in tn) \
+                                    or not isinstance(st.iter, (ast.Tuple, ast.List, ast.Name, ast.Attribute)):
+                                bad.append(st)
+                            todo.extend(st.body + st.orelse)
+                        elif isinstance(st, ast.Assign) and all(isinstance(t, ast.Name) and t.id not in leaks for t in st.targets) \
+                                and pure(st.value):
+                            pass
                         elif isinstance(st, ast.Expr) and isinstance(st.value, ast.Call) and call_name(st.value) == 'print':
-                            for a in st.value.args:
-                                for x in ast.walk(a):
-                                    if isinstance(x, ast.NamedExpr) or (isinstance(x, ast.Call) and call_name(x).split('.')[-1] not in (
-                                            'group', 'start', 'end', 'format', 'join', 'repr', 'str', 'len')):
-                                        bad.append(st)
+                            if not all(pure(a) for a in st.value.args):
+                                bad.append(st)
                         elif isinstance(st, ast.Pass):
                             pass
                         else:
